@@ -81,8 +81,17 @@ TupT == { HTupF(<<a, b>>) : a, b \in {IntH, BoolH, StrH, HAny, Lit1, LitT} } \cu
 UnionT == { U(a, b) : a \in {IntH, BoolH, StrH, AH, Lit1, LitT, LI, AnnI}, b \in {NoneH, StrH, BH, LitA, HSeq("list", StrH)} }
           \ { U(StrH, StrH) }
 
+UnionT2 == { U(a, b) : a \in {IntH, BoolH, Lit1, AnnI, LI}, b \in {AnnS, TvInt, HNew("int"), HTupF(<<IntH, StrH>>)} }
+           \cup { HUnion(<<IntH, StrH, LI>>), HUnion(<<Lit1, LitA, NoneH>>), HUnion(<<BoolH, StrH, NoneH>>) }
+KidD == { LI, HSeq("list", StrH), HSeq("list", BoolH), HTupF(<<IntH, StrH>>), HSeq("tuple", IntH), HMap("dict", StrH, IntH),
+          U(IntH, StrH), U(IntH, NoneH), AnnI, AnnS, Lit1, LitT, HNew("int"), TvInt, HCall(<<IntH>>, StrH),
+          HType(IntH), HType(BoolH) }
+DeepT == { HSeq(s, k) : s \in {"list", "Sequence", "tuple"}, k \in KidD } \cup { HMap("dict", StrH, k) : k \in KidD }
+         \cup { HTupF(<<k, StrH>>) : k \in {LI, AnnI, AnnS, U(IntH, NoneH), HSeq("tuple", IntH)} }
+
 HintSet == Leaves \cup SeqQ \cup ReitQ \cup QuasiQ \cup MapQ \cup TupQ \cup UnionQ \cup DeepQ
-           \cup (IF Tier = "quick" THEN {} ELSE SeqT \cup ReitT \cup QuasiT \cup MapT \cup TupT \cup UnionT)
+           \cup (IF Tier = "quick" THEN {}
+                 ELSE SeqT \cup ReitT \cup QuasiT \cup MapT \cup TupT \cup UnionT \cup UnionT2 \cup DeepT)
 HintSeq == TLCEval(SetToSeq(HintSet))
 NHint == TLCEval(Len(HintSeq))
 HS == 1..NHint
@@ -152,6 +161,7 @@ Row == LET a == A  hs == HintSeq
     subX |-> LET v == Vec(LegacyFixed, a) IN [j \in HS |-> Code(v[j])],
     subI |-> LET v == Vec({}, a) IN [j \in HS |-> Code(v[j])],
     eqF  |-> [j \in HS |-> Code(EqH(LegacyFaithful, a, hs[j]))],
+    eqX  |-> [j \in HS |-> Code(EqH(LegacyFixed, a, hs[j]))],
     eqI  |-> [j \in HS |-> Code(EqH({}, a, hs[j]))],
     unsF |-> [j \in HS |-> IF judged /\ sf[j] = "T" /\ ~HasAny(hs[j]) THEN Unsound(sat, hs[j]) ELSE 0]]
 EmitRows == (Active /\ Emit) =>
